@@ -2,6 +2,7 @@ import StorageModel.Driver.Common
 import StorageModel.Cursor.Kinds
 import StorageModel.Cursor.Stacked
 import StorageModel.Cursor.Reuse
+import StorageModel.Cursor.Multi
 /- model driver for C14: `run spec` reads case lines on stdin and prints one output line per case
    (spec = false: the engine model's output; spec = true: the spec's verdict).
 
@@ -36,6 +37,14 @@ import StorageModel.Cursor.Reuse
      THINGS rows `id=tags/others/boss/rc` (rc: '~' = never linked, no bucket)
      segments `ROOT:ops` separated by '/': open on the thing ROOT (hex; a missing id = no entity), then ops
    output: for every segment the observation after opening and after every operation
+
+   several cursors alive at once:   M;OPENER,OPENER[,OPENER];SET <script>
+     all cursors are opened first (from ONE bucket object / collection / store, in one transaction)
+     OPENER  list dirf dirr typedf typedr seekable openf openr   (one *TypedBucket value holding SET as a string list;
+                                                                 the raw cursors see the stored keys `05 ++ e`)
+             link rclinkf rclinkr relf relr setsym ids           (one collection / store / entity)
+     script  steps `<i><op>` separated by ',': operate cursor i (a digit), '_' = none
+   output: the observation of every cursor after opening, then after every step that of the operated cursor
 
    exhaustive block:   X <desc> <k> <op,op,…>
      every script of length ≤ k over the given operations is run; output `<count> <h> <hn>` where
@@ -346,6 +355,48 @@ def reuseCase (line : String) : Option (List String × String) :=
     | _ => none
   | _ => none
 
+
+/-! several cursors alive at once (`M` cases) -/
+
+def openerDesc (xs : List Bytes) : String → Option Desc
+  | "list" | "dirf" | "typedf" | "link" | "rclinkf" | "relf" => some (.tfwd typeString xs)
+  | "dirr" | "typedr" | "rclinkr" | "relr" => some (.trev typeString xs)
+  | "seekable" | "openf" => some (.fwd (xs.map (prependFieldType typeString)))
+  | "openr" => some (.rev (xs.map (prependFieldType typeString)))
+  | "setsym" => some (.setsym xs)
+  | "ids" => some (.scan (.fwd xs) [] xs)
+  | _ => none
+
+def parseStep (s : String) : Option (Nat × Op) := do
+  let i ← (s.take 1).toString.toNat?
+  let op ← parseOp (s.drop 1).toString
+  pure (i, op)
+
+def parseScript (s : String) : Option (List (Nat × Op)) :=
+  if s = "_" then some [] else (s.splitOn ",").mapM parseStep
+
+def multiStep (spec : Bool) (toks : List String) (sc : String) : String :=
+  match toks with
+  | [openers, set] =>
+    match parseSet set, parseScript sc with
+    | some xs, some script =>
+      match (openers.splitOn ",").mapM (openerDesc xs) with
+      | some ds => showRun (if spec then (multiSpec ds script).map normNil' else multiRun ds script)
+      | none => "bad-case"
+    | _, _ => "bad-case"
+  | _ => "bad-case"
+where
+  normNil' (o : Obs) : Obs := match o with
+    | .value none => .value (some [])
+    | o => o
+
+def multiCase (line : String) : Option (List String × String) :=
+  match splitSp line with
+  | [d, o] => match d.splitOn ";" with
+    | "M" :: toks => some (toks, o)
+    | _ => none
+  | _ => none
+
 structure Case where
   desc : Desc
   spec : Spec
@@ -415,6 +466,9 @@ def step (line : String) : String :=
   match splitSp line with
   | ["X", d, k, a] => blockStep false d k a
   | _ =>
+    match multiCase line with
+    | some (toks, o) => multiStep false toks o
+    | none =>
     match reuseCase line with
     | some (toks, o) => reuseStep false toks o
     | none =>
@@ -429,6 +483,9 @@ def specStep (line : String) : String :=
   match splitSp line with
   | ["X", d, k, a] => blockStep true d k a
   | _ =>
+    match multiCase line with
+    | some (toks, o) => multiStep true toks o
+    | none =>
     match reuseCase line with
     | some (toks, o) => reuseStep true toks o
     | none =>
